@@ -67,20 +67,25 @@ func (pt *ParsedTable) ToMarkdown() string {
 		sb.WriteString("|")
 		colIdx := 0
 		for _, cell := range row.Cells {
-			if cell.IsMergedContinuation {
-				continue
-			}
-			// Replace newlines and pipes within cells
-			text := strings.ReplaceAll(cell.Text, "\n", " ")
-			text = strings.ReplaceAll(text, "|", "\\|")
-			text = strings.TrimSpace(text)
-			sb.WriteString(" ")
-			sb.WriteString(text)
-			sb.WriteString(" |")
-
 			span := cell.ColSpan
 			if span < 1 {
 				span = 1
+			}
+			if cell.IsMergedContinuation {
+				// A merged-away cell still occupies its columns
+				sb.WriteString(" |")
+			} else {
+				// Replace newlines and pipes within cells
+				text := strings.ReplaceAll(cell.Text, "\n", " ")
+				text = strings.ReplaceAll(text, "|", "\\|")
+				text = strings.TrimSpace(text)
+				sb.WriteString(" ")
+				sb.WriteString(text)
+				sb.WriteString(" |")
+			}
+			// Keep the cells that follow a horizontal span in their own columns
+			for i := 1; i < span; i++ {
+				sb.WriteString(" |")
 			}
 			colIdx += span
 		}
